@@ -4,6 +4,7 @@ package props
 
 import (
 	"encoding/json"
+	mrand "math/rand"
 	"runtime"
 	"fmt"
 	"os"
@@ -53,6 +54,9 @@ func register(p *Prop) { Registry[p.ID] = p }
 
 // RunOnce executes property p with the given tape.
 func RunOnce(t *testing.T, p *Prop, seed uint64, tape *simkit.Tape, tier string, verbose bool) *RunResult {
+	// the repository's random policies use the global math/rand source: pin it per run
+	// (the test binary sets GODEBUG randseednop=0, see worker_test.go)
+	mrand.Seed(int64(seed))
 	env := worlds.NewEnv(seed, tape)
 	env.S.Verbose = verbose
 	tape.KeepLbl = verbose
